@@ -19,7 +19,8 @@ RULE = ("a case is a namespace tree on disk (3-12 definitions in 1-3 root direct
         "references / wrong-case spellings / case-variant sibling names / the same name and version in a second same-named "
         "root / missing versions / a namespace component that equals or starts with the short name of a definition inside it, with "
         "relative references at several depths and optionally a same-named definition in the namespace obtained by deleting "
-        "that component / two names equal up to case in different versions referenced with all (spelling, version) combinations) plus read_namespace and read_files calls for several target subsets, and one read_files "
+        "that component / two names equal up to case in different versions referenced with all (spelling, version) combinations / a self "
+        "reference or 2-/3-cycle through a definition that has a twin in a same-named second root directory) plus read_namespace and read_files calls for several target subsets, and one read_files "
         "call per definition on its own; non-trivial = at least one call returns a type with a nested composite or fails in "
         "resolution; distinct = by hash of the canonical case")
 THEOREMS_NOTE = ("C09_resolve_exact / C09_resolve_never_other / C09_errors fix the outcome of a resolution, C09_terminates / C09_cycles / "
@@ -424,7 +425,7 @@ def all_dirs_queries(rng, roots, defs, extra_lookups=None):
 
 
 def gen_case(rng, tier, flavor=None):
-    flavor = flavor or rng.choice(["plain", "plain", "plain", "plain", "cycle", "case", "dup_root", "wrongcase", "self", "twins", "f7", "nsprefix", "nsprefix", "casever", "casever"])
+    flavor = flavor or rng.choice(["plain", "plain", "plain", "plain", "cycle", "case", "dup_root", "wrongcase", "self", "twins", "f7", "nsprefix", "nsprefix", "casever", "casever", "dupcycle", "dupcycle"])
     opts = {"print_p": 0.15, "missing_p": 0.015, "badrel_p": 0.015, "fault_p": 0.01}
     if flavor == "cycle":
         opts["cycle_p"] = 0.25
@@ -470,6 +471,8 @@ def gen_case(rng, tier, flavor=None):
         add_nsprefix(rng, roots[0], defs)
     if flavor == "casever":
         add_casever(rng, roots[0], defs)
+    if flavor == "dupcycle":
+        add_dupcycle(rng, roots, defs)
     qs = all_dirs_queries(rng, roots, defs)
     return {"files": defs, "queries": qs, "flavor": flavor, "dirs": roots}
 
@@ -485,6 +488,44 @@ def make_twin(rng, defs, o, same):
     else:
         c["ext"] = "uavcan" if o["ext"] == "dsdl" else "dsdl"
     return c
+
+
+def add_dupcycle(rng, roots, defs, kind=None, sub=None, twin_body=None, link_in_both=None):
+    """One root namespace provided by TWO directories that both hold Node.1.0; the Node of the first directory refers to
+    itself or lies on a 2-/3-cycle.  The self / cyclic reference must stay undefined: the twin of the other directory is
+    removed from the lookup list together with the definition being read.  (Appends the second directory to roots.)"""
+    r0 = roots[0]
+    r2 = ["d", r0[-1]]
+    if r2 not in roots:
+        roots.append(r2)
+    kind = kind or rng.choice(["self", "self", "cycle2", "cycle2", "cycle3"])
+    sub = sub if sub is not None else [rng.choice(SUBS[:2]) for _ in range(rng.choice([0, 0, 1]))]
+    ns_name = ".".join([r0[-1]] + sub)
+    rel = lambda nm: nm if rng.random() < 0.5 else ns_name + "." + nm  # noqa: E731
+    i = len(defs)
+    arr = rng.choice([0, 0, 2])
+    if kind == "self":
+        defs.append(mkfile(i, r0 + sub, "Node", 1, 0, [["plain", 8], ["ref", rel("Node"), 1, 0, arr]]))
+        n = i + 1
+    elif kind == "cycle2":
+        defs.append(mkfile(i, r0 + sub, "Node", 1, 0, [["ref", rel("Link"), 1, 0, arr]]))
+        defs.append(mkfile(i + 1, r0 + sub, "Link", 1, 0, [["ref", rel("Node"), 1, 0, 0], ["plain", 8]]))
+        n = i + 2
+    else:
+        defs.append(mkfile(i, r0 + sub, "Node", 1, 0, [["ref", rel("Link"), 1, 0, 0]]))
+        defs.append(mkfile(i + 1, r0 + sub, "Link", 1, 0, [["ref", rel("Hop"), 1, 0, arr]]))
+        defs.append(mkfile(i + 2, r0 + sub, "Hop", 1, 0, [["ref", rel("Node"), 1, 0, 0]]))
+        n = i + 3
+    # the twin in the other directory: harmless on its own, or with the same body
+    tb = twin_body if twin_body is not None else rng.choice(["plain", "plain", "same"])
+    defs.append(mkfile(n, r2 + sub, "Node", 1, 0, [["plain", 16]] if tb == "plain" else [list(x) for x in defs[i]["body"]]))
+    n += 1
+    if kind != "self" and (link_in_both if link_in_both is not None else rng.random() < 0.3):
+        defs.append(mkfile(n, r2 + sub, "Link", 1, 0, [["plain", 8]]))
+        n += 1
+    if rng.random() < 0.5:
+        # somebody who merely uses Node: ambiguous while both directories are looked up
+        defs.append(mkfile(n, r0 + sub, "User", 1, 0, [["ref", rel("Node"), 1, 0, 0]]))
 
 
 def add_casever(rng, root, defs, names=None, vers=None):
@@ -596,6 +637,18 @@ def corpus():
                 fs.append(mkfile(k, ns, "R%d" % k, 1, 0, [["ref", nm if k % 2 else "ns." + nm, v[0], v[1], 0]]))
                 k += 1
         out.append(mk(fs))
+    # self reference / cycles through a definition that has a twin in a same-named second root directory
+    import random as _random
+    for kind, tb, lb in [("self", "plain", False), ("self", "same", False), ("cycle2", "plain", False), ("cycle2", "plain", True), ("cycle3", "plain", False)]:
+        fs, rts = [], [ns]
+        add_dupcycle(_random.Random(11), rts, fs, kind=kind, sub=[], twin_body=tb, link_in_both=lb)
+        r2 = rts[1]
+        ids0 = [f["id"] for f in fs if is_under(ns, f)]
+        qs = [{"k": "ns", "root": ns, "lookups": [r2], "allow": True}, {"k": "ns", "root": ns, "lookups": [], "allow": True},
+              {"k": "ns", "root": r2, "lookups": [ns], "allow": True},
+              {"k": "files", "targets": ids0, "roots": [ns, r2], "lookups": []}, {"k": "files", "targets": [0], "roots": [ns], "lookups": [r2]},
+              {"k": "files", "targets": [0], "roots": [ns, r2], "lookups": []}, {"k": "files", "targets": [f["id"] for f in fs], "roots": [ns, r2], "lookups": []}]
+        out.append({"files": fs, "queries": qs, "flavor": "corpus", "dirs": [ns, r2]})
     # a target that is later reached as a dependency and the other way round (promotion)
     out.append(mk([mkfile(0, ns, "A", 1, 0, [["ref", "Z", 1, 0, 0], ["print"]]), mkfile(1, ns, "Z", 1, 0, [["print"], ["plain", 8]]),
                    mkfile(2, ns, "M", 1, 0, [["ref", "A", 1, 0, 1]])]))
